@@ -48,8 +48,10 @@ Proof. exact threshold_step_keeps. Qed.
 Print Assumptions C04_threshold_keeps.
 
 (* 5. the hypothesis "timestamps span a positive duration" is needed: a zero-span series gets an EMPTY default
-      support and loses its samples (the library's behaviour, reproduced by the model; recorded as a known
-      finding under C06 / C08 where the statement does not exclude it) *)
+      support, and every re-construction under that support loses its samples (recorded as a known finding under
+      C06 / C08 where the statement does not exclude it).  mk_ts applies that re-construction at once; the
+      library's constructor itself keeps the samples under the empty support: see section 6 for the constructor
+      as built and for the exact role of the hypothesis *)
 Theorem C04_zero_span_loses_samples : forall x n, t_ (mk_ts (repeat x (S n))) = [].
 Proof. exact mk_ts_zero_span. Qed.
 Print Assumptions C04_zero_span_loses_samples.
@@ -60,3 +62,142 @@ Example C04_nonvacuous :
      OTs {| t_ := [2; 4; 8; 10]; sup_ := [(2, 5); (7, 10)] |};
      OEp [(1, 9)]; OTs {| t_ := [2; 4; 6; 8]; sup_ := [(1, 9)] |}].
 Proof. vm_compute. reflexivity. Qed.
+
+(* ------------------------------------------------------------------------------------------------------
+   Additions of the oracle / theorem audit (DESIGN 10.10): the clauses of the statement that sections 1-5 do
+   not state, and the exact reading of the constructor on zero-span input. *)
+From Verif Require Model.Group Proofs.GroupProofs.
+
+(* 6. the constructor WITHOUT the model's final restriction.  _Base.__init__ restricts only to a support that the
+      caller passes; the default support IntervalSet(t0, t_last) is attached and nothing is dropped.  mk_ts of
+      Model/Store.v restricts to the default support as well: on input spanning a positive duration (the property's
+      hypothesis) the two coincide (C04_ctor_as_built_agrees), so sections 1-4 are statements about the constructor
+      as built.  On zero-span input they differ: the constructor as built keeps the samples under the EMPTY support,
+      which is NOT well formed (C04_ctor_as_built_zero_span_refuted: the hypothesis of the property is necessary;
+      this is the object nap.Ts([5., 5.]) - and what jitter_timestamps / shuffle_ts_intervals return on a series
+      reduced to one instant, the known finding of this property), and it is mk_ts that C04_zero_span_loses_samples
+      describes, i.e. what every LATER re-construction with that empty support does. *)
+Definition mk_ts_as_built (t : list Z) : ts :=
+  let s := sortZ t in
+  match s with
+  | [] => {| t_ := []; sup_ := [] |}
+  | x :: _ => {| t_ := s; sup_ := mk_iset [x] [last s x] |}
+  end.
+
+Theorem C04_ctor_as_built_agrees : forall t,
+  match sortZ t with [] => mk_ts_as_built t = mk_ts t | x :: _ => x < last (sortZ t) x -> mk_ts_as_built t = mk_ts t end.
+Proof.
+  intros t. pose proof (mk_ts_keeps t) as K. unfold mk_ts_as_built, mk_ts in *.
+  destruct (sortZ t) as [|x r] eqn:E; [reflexivity|].
+  intros Hlt. specialize (K Hlt). cbn [t_ mk_ts_sup] in K.
+  unfold mk_ts_sup. f_equal. symmetry. exact K.
+Qed.
+Print Assumptions C04_ctor_as_built_agrees.
+
+Theorem C04_ctor_as_built_WF : forall t,
+  match sortZ t with [] => True | x :: _ => x < last (sortZ t) x end -> WF_ts (mk_ts_as_built t).
+Proof.
+  intros t H. pose proof (C04_ctor_as_built_agrees t) as A.
+  destruct (sortZ t) as [|x r] eqn:E; [rewrite A|rewrite (A H)]; apply mk_ts_WF.
+Qed.
+Print Assumptions C04_ctor_as_built_WF.
+
+Theorem C04_ctor_as_built_zero_span_refuted :
+  mk_ts_as_built [5; 5] = {| t_ := [5; 5]; sup_ := [] |} /\ ~ WF_ts (mk_ts_as_built [5; 5]).
+Proof.
+  split; [vm_compute; reflexivity|].
+  intros (_ & H & _). vm_compute in H. inversion H as [|? ? H1 _]. discriminate H1.
+Qed.
+Print Assumptions C04_ctor_as_built_zero_span_refuted.
+
+(* the same for histories: with the constructor as built in place of mk_ts, every history whose constructor calls
+   span a positive duration (or are empty) produces exactly the objects of `run`, hence well-formed ones - this is
+   the statement's quantifier made explicit -, and the hypothesis cannot be dropped *)
+Definition step_as_built (st : list obj) (o : op) : obj :=
+  match o with OpMkTs t => OTs (mk_ts_as_built t) | _ => step st o end.
+Definition run_as_built (ops : list op) : list obj := fold_left (fun st o => st ++ [step_as_built st o]) ops [].
+Definition positive_span_op (o : op) : Prop :=
+  match o with
+  | OpMkTs t => match sortZ t with [] => True | x :: _ => x < last (sortZ t) x end
+  | _ => True
+  end.
+
+Lemma step_as_built_agrees st o : positive_span_op o -> step_as_built st o = step st o.
+Proof.
+  destruct o; try reflexivity. cbn [positive_span_op step_as_built step]. intros H. f_equal.
+  pose proof (C04_ctor_as_built_agrees t) as A. destruct (sortZ t); [exact A|exact (A H)].
+Qed.
+
+Theorem C04_reachable_as_built : forall ops, Forall positive_span_op ops ->
+  run_as_built ops = run ops /\ Forall WF_obj (run_as_built ops).
+Proof.
+  intros ops H.
+  assert (G : forall st, fold_left (fun st o => st ++ [step_as_built st o]) ops st = fold_left (fun st o => st ++ [step st o]) ops st).
+  { induction H as [|o r Ho Hr IH]; intros st; [reflexivity|].
+    cbn [fold_left]. rewrite (step_as_built_agrees st o Ho). apply IH. }
+  assert (E : run_as_built ops = run ops) by apply G.
+  split; [exact E|]. rewrite E. apply C04_reachable.
+Qed.
+Print Assumptions C04_reachable_as_built.
+
+Theorem C04_reachable_as_built_zero_span_refuted : ~ Forall WF_obj (run_as_built [OpMkTs [5; 5]]).
+Proof.
+  intros H. vm_compute in H. inversion H as [|? ? W _]. destruct W as (_ & Hin & _).
+  inversion Hin as [|? ? Hv _]. discriminate Hv.
+Qed.
+Print Assumptions C04_reachable_as_built_zero_span_refuted.
+
+(* 7. rate: a non-empty well-formed series has a support of positive total duration, so that its rate
+      n / tot_length(support) is a finite number (the rate inf of the zero-span objects is exactly the failure of
+      this); rate itself is not a field of the model (it is recomputed by the constructor from n and the support:
+      the equality rate = n / duration is enforced on the implementation by the oracle) *)
+Theorem C04_rate_defined : forall x, WF_ts x -> t_ x <> [] -> 0 < tot_length (sup_ x).
+Proof.
+  intros x (_ & Hin & Hc) Hne. apply GroupProofs.tot_length_pos; [exact Hc|].
+  intros E. destruct (t_ x) as [|v r]; [congruence|]. inversion Hin as [|? ? Hv _]. rewrite E in Hv. discriminate Hv.
+Qed.
+Print Assumptions C04_rate_defined.
+
+Corollary C04_reachable_rate_defined : forall ops x, In (OTs x) (run ops) -> t_ x <> [] -> 0 < tot_length (sup_ x).
+Proof.
+  intros ops x Hin. apply C04_rate_defined. pose proof (C04_reachable ops) as H. rewrite Forall_forall in H. exact (H _ Hin).
+Qed.
+Print Assumptions C04_reachable_rate_defined.
+
+(* 8. TsGroup members (model Model/Group.v, proofs shared with C12): every member of every group reachable from a
+      constructed group (members restricted, i.e. bypass_check = False) by selections, restrict, get, the round
+      trip through to_tsd / to_tsgroup and merges is well formed, non-empty members carry the group's support, and
+      their rate is n / total duration of that support *)
+Theorem C04_group_members : forall data sup ht g ops,
+  Group.mk_group data sup false ht = Some g ->
+  Forall (fun d => GroupProofs.raw_wf sup (snd (snd d))) data ->
+  match sup with Some s => canonical s | None => True end ->
+  Forall GroupProofs.op_ok ops ->
+  let g' := Group.run g ops in
+  canonical (Group.g_sup g')
+  /\ forall e, In e (Group.g_entries g') ->
+       let m := Group.e_mem e in
+       sortedZ (Group.m_t m)
+       /\ Forall (fun v => mem v (Group.m_sup m) = true) (Group.m_t m)
+       /\ canonical (Group.m_sup m)
+       /\ (Group.m_t m <> [] ->
+             Group.m_sup m = Group.g_sup g'
+             /\ 0 < tot_length (Group.m_sup m)
+             /\ Group.rate m = Some (length (Group.m_t m), tot_length (Group.m_sup m))).
+Proof.
+  intros data sup ht g ops Hg Hd Hs Hok g'.
+  destruct (GroupProofs.mk_group_invariants data sup false ht g Hg Hd Hs) as [W R]. specialize (R eq_refl).
+  destruct (GroupProofs.run_invariant ops g W R Hok) as [W' R']. fold g' in W', R'.
+  destruct (GroupProofs.invariants_meaning g' W' R') as (_ & Hc & Hm).
+  split; [exact Hc|]. intros e He m.
+  destruct (Hm e He) as (Hsorted & Hin & Hrate).
+  destruct W' as (_ & _ & Hwf). rewrite Forall_forall in Hwf. destruct (Hwf e He) as [_ Hcm].
+  unfold GroupProofs.Rg in R'. rewrite Forall_forall in R'. destruct (R' e He) as [_ Hn].
+  unfold GroupProofs.normal in Hn. fold m in Hsorted, Hin, Hrate, Hcm, Hn.
+  split; [exact Hsorted|]. split.
+  - destruct (Group.m_t m) as [|v r] eqn:E; [constructor|]. rewrite Hn. exact Hin.
+  - split; [exact Hcm|]. intros Hne.
+    assert (Hms : Group.m_sup m = Group.g_sup g') by (destruct (Group.m_t m); [congruence|exact Hn]).
+    destruct (Hrate Hne) as [Hr Hp]. rewrite Hms. auto.
+Qed.
+Print Assumptions C04_group_members.
